@@ -2,6 +2,7 @@ package props
 
 import (
 	"fmt"
+	"go/constant"
 	"go/token"
 	"sort"
 	"verif/internal/engine/bounds"
@@ -484,6 +485,15 @@ func (c *Ctx) ringMemorySafety() {
 			}
 			ok = minSize >= 1
 		}
+		if ok && c.R.Property != "C14" && c.R.Property != "C17" {
+			// liveness of the smallest ring: the pump asks for a whole read block of free room, so a ring must be larger
+			// than a block by at least the smallest packet (2 bytes) for anything to be read from it at all
+			if block := c.ringPumpBlock(); block > 0 {
+				c.R.Check(bounds.Proves(facts, bounds.GE(size.Int, bounds.Const(block+2))), ruleB10, "newBuffer:smallest-ring-holds-a-packet-beside-a-read-block", c.P.InstrPos(ret),
+					fmt.Sprintf("size >= %d + 2 at the successful return", block),
+					fmt.Sprintf("the constructor can make a ring that is not larger than the block of %d bytes the pump waits for: on such a ring (a small configured BufferSize) the pump never gets its block, or no packet fits beside it - the connection reads nothing and is never torn down", block))
+			}
+		}
 		established = ok
 		c.R.Check(ok, ruleB10, "newBuffer:establishes-size-invariant", c.P.InstrPos(ret), fmt.Sprintf("len(buf) == size, mask == size-1, size >= %d at the successful return", minSize), "the constructor does not provably establish len(buf) == size, mask == size-1 and size >= 1")
 	}
@@ -817,4 +827,27 @@ func (c *Ctx) ringPositions() {
 	c.R.Floor("cursor updates in the ring", nset, 2)
 	c.R.Count("ring storage accesses with a cursor-derived start index", n)
 	c.R.Floor("ring storage accesses with a cursor-derived start index", n, 8)
+}
+
+// ringPumpBlock: the largest constant count a method of the ring passes to another method of the ring (the read block
+// ReadFrom reserves); 0 when there is none.
+func (c *Ctx) ringPumpBlock() int64 {
+	var best int64
+	for _, fn := range c.P.Funcs {
+		if recvNamed(fn) != "buffer" || fn.Pkg == nil || fn.Pkg.Pkg.Path() != pkgService {
+			continue
+		}
+		for _, call := range ir.Calls(fn) {
+			callee := call.Common().StaticCallee()
+			if callee == nil || recvNamed(callee) != "buffer" || len(call.Common().Args) < 2 || len(c.calls(callee, "sync", "Cond", "Wait")) == 0 {
+				continue
+			}
+			if k, ok := call.Common().Args[1].(*ssa.Const); ok && k.Value != nil && k.Value.Kind() == constant.Int {
+				if v, exact := constant.Int64Val(k.Value); exact && v > best {
+					best = v
+				}
+			}
+		}
+	}
+	return best
 }
